@@ -220,3 +220,26 @@ Theorem C15_unrevisable_contract_frozen :
             c_renter con' = c_renter con ∧ c_host con' = c_host con ∧ c_revnum con' = c_revnum con.
 Proof. exact unrevisable_contract_frozen. Qed.
 Print Assumptions C15_unrevisable_contract_frozen.
+
+(** DebitAccount is a single atomic step of the model: a successful debit removes exactly the
+    price from funds that covered it, a refused one removes nothing.  (That the implementation's
+    DebitAccount is one such step also under concurrent RPC streams is what the harness's
+    concurrent section checks.) *)
+Theorem C15_debit_atomic :
+  ∀ s a cost,
+    inv s → 0 ≤ cost →
+    match debit s a cost with
+    | Some s' => cost ≤ drawable s a ∧ total s' = total s - cost ∧
+                 (∀ k, 0 ≤ bal (accounts s') k) ∧ (∀ k, 0 ≤ bal (pools s') k) ∧
+                 attached s' = attached s ∧ contracts s' = contracts s ∧ sectors s' = sectors s
+    | None => drawable s a < cost
+    end.
+Proof. exact debit_atomic. Qed.
+Print Assumptions C15_debit_atomic.
+
+(** An RPC whose request never arrives completely (the header, or the sector data of a write)
+    is refused before anything is debited or stored. *)
+Theorem C15_cut_stream_changes_nothing :
+  ∀ s o, step s (Cut o) = (s, ([], RErr)).
+Proof. exact cut_stream_changes_nothing. Qed.
+Print Assumptions C15_cut_stream_changes_nothing.
